@@ -4,10 +4,12 @@
 (* prunes ignored directories, whatever the directory listing order.       *)
 (*                                                                         *)
 (* A small project tree (prefix-related siblings test / tests, a nested    *)
-(* sub, a VCS metadata directory), ignore files of the three walked kinds  *)
-(* placed in its directories (absent, empty, or with lines that ignore a   *)
-(* directory, re-include it, or only concern files), an optional           *)
-(* .git/info/exclude, and optional explicit watch paths.                   *)
+(* sub, two VCS metadata directories), ignore files of the three walked    *)
+(* kinds placed in its directories (absent, empty, or with lines that      *)
+(* ignore a directory, re-include it, or only concern files), the          *)
+(* origin-level files (.git/info/exclude, .bzrignore, _darcs/prefs/boring, *)
+(* .fossil-settings/ignore-glob, git's core.excludesFile, explicit ignore  *)
+(* files), and optional explicit watch paths.                              *)
 (*                                                                         *)
 (* Expected(...) says declaratively which files must be found: those of    *)
 (* every directory reachable from the origin without entering a directory  *)
@@ -25,24 +27,36 @@ CONSTANTS Family, Sample,
           PrefilterChildren   \* TRUE: the pinned walker (children are checked against the filter when they
                               \* are listed, before their parent's own ignore files are loaded)
 
-Dirs == { <<>>, <<"test">>, <<"tests">>, <<"a">>, <<".git">>, <<"test", "sub">>, <<"tests", "sub">> }
+Dirs == { <<>>, <<"test">>, <<"tests">>, <<"a">>, <<".git">>, <<"_darcs">>, <<"test", "sub">>, <<"tests", "sub">> }
+MetaDirs == { <<".git">>, <<"_darcs">> }
 Children(d) == {c \in Dirs : Len(c) = Len(d) + 1 /\ SubSeq(c, 1, Len(d)) = d}
 IsPrefix(d, p) == Len(d) <= Len(p) /\ SubSeq(p, 1, Len(d)) = d
 
 \* where a walked ignore file may sit, and what it may contain
 Locs == { <<>>, <<"test">>, <<"tests">>, <<"test", "sub">> }
+MetaLocs == { <<"_darcs">> }        \* a walked ignore file inside a metadata directory is never found
 P(text) == CHOOSE p \in Pats : p.text = text
 Contents == { <<>>,                       \* an empty (zero-length) file: never reported
               <<P("sub/")>>, <<P("tests/")>>, <<P("test")>>, <<P("!sub/")>>, <<P("*.o")>>,
               <<P("sub/"), P("!sub/")>> }
 Kinds == {".gitignore", ".ignore", ".hgignore"}
 
-\* a configuration: files = set of [loc, kind, lines]; exclude = lines of .git/info/exclude or "none"
-NoExclude == [on |-> FALSE, lines |-> <<>>]
-Excl(ls) == [on |-> TRUE, lines |-> ls]
+\* a configuration: files = set of [loc, kind, lines]; exclude = the origin-level files that exist, a
+\* sequence of [kind, lines] in the order from_origin() looks for them (later ones take precedence)
+OriginKinds == <<"explicit", "excludesfile", ".bzrignore", "_darcs/prefs/boring", ".fossil-settings/ignore-glob",
+                 ".git/info/exclude">>
+OFile(kind, ls) == [kind |-> kind, lines |-> ls]
+NoExclude == <<>>
+Excl(ls) == <<OFile(".git/info/exclude", ls)>>
 Cfg(files, exclude, watches) == [files |-> files, exclude |-> exclude, watches |-> watches]
 
-AppliesTo(kind) == CASE kind = ".gitignore" -> "Git" [] kind = ".hgignore" -> "Mercurial" [] OTHER -> "-"
+AppliesTo(kind) ==
+    CASE kind \in {".gitignore", ".git/info/exclude", "excludesfile"} -> "Git"
+      [] kind = ".hgignore" -> "Mercurial"
+      [] kind = ".bzrignore" -> "Bazaar"
+      [] kind = "_darcs/prefs/boring" -> "Darcs"
+      [] kind = ".fossil-settings/ignore-glob" -> "Fossil"
+      [] OTHER -> "-"
 
 ---------------------------------------------------------------------------
 \* ignore semantics for a directory path, given the loaded files (a sequence of [loc, lines],
@@ -53,9 +67,13 @@ LinesAtLoc(loaded, loc) ==
                   ELSE IF loaded[i].loc = loc THEN loaded[i].lines \o Cat(i + 1) ELSE Cat(i + 1)
     IN  Cat(1)
 
+GlobalLoc == <<"~global~">>
 RECURSIVE DirLevels(_, _, _)
 DirLevels(loaded, path, k) ==
-    IF k < 0 THEN "none"
+    IF k < 0
+    THEN \* farthest: files that apply everywhere (git's core.excludesFile)
+         LET g == LinesAtLoc(loaded, GlobalLoc)
+         IN  IF g = <<>> THEN "none" ELSE PathOrParents(g, path, Len(path), TRUE)
     ELSE LET ls  == LinesAtLoc(loaded, SubSeq(path, 1, k))
              rel == SubSeq(path, k + 1, Len(path))
              v   == IF ls = <<>> THEN "none" ELSE PathOrParents(ls, rel, Len(rel), TRUE)
@@ -64,7 +82,7 @@ DirLevels(loaded, path, k) ==
 \* check_dir(): FALSE (= skip) iff the loaded files ignore the directory, or it is the origin's
 \* VCS metadata directory (the walker adds "/.git" and friends as globs of the origin)
 DirIgnored(loaded, d) ==
-    d # <<>> /\ (d = <<".git">> \/ DirLevels(loaded, d, Len(d) - 1) = "ignore")
+    d # <<>> /\ (d \in MetaDirs \/ DirLevels(loaded, d, Len(d) - 1) = "ignore")
 
 WatchOK(cfg, d) == cfg.watches = {} \/ \E w \in cfg.watches : IsPrefix(w, d) \/ IsPrefix(d, w)
 
@@ -77,7 +95,14 @@ FilesIn(cfg, d) ==
                        IN  (IF fs = {} THEN <<>> ELSE <<CHOOSE f \in fs : TRUE>>) \o Sel(i + 1)
     IN  Sel(1)
 
-Initial(cfg) == IF ~cfg.exclude.on \/ cfg.exclude.lines = <<>> THEN <<>> ELSE <<[loc |-> <<>>, lines |-> cfg.exclude.lines]>>
+\* what the walker's filter starts with: the origin-level files that are not empty, in order
+Initial(cfg) ==
+    LET RECURSIVE Sel(_)
+        Sel(i) == IF i > Len(cfg.exclude) THEN <<>>
+                  ELSE (IF cfg.exclude[i].lines = <<>> THEN <<>>
+                        ELSE <<[loc |-> IF cfg.exclude[i].kind = "excludesfile" THEN GlobalLoc ELSE <<>>,
+                                lines |-> cfg.exclude[i].lines]>>) \o Sel(i + 1)
+    IN  Sel(1)
 
 ---------------------------------------------------------------------------
 \* Declarative expectation
@@ -102,6 +127,11 @@ Reachable(cfg, d) ==
 ExpectedFound(cfg) ==
     {[loc |-> f.loc, kind |-> f.kind] : f \in {f \in cfg.files : f.lines # <<>> /\ Reachable(cfg, f.loc)}}
 
+\* the origin-level files reported: those that are not empty; an explicit ignore file is taken as given
+ExpectedOrigin(cfg) ==
+    {[loc |-> <<>>, kind |-> cfg.exclude[i].kind, applies_to |-> AppliesTo(cfg.exclude[i].kind)] :
+        i \in {i \in DOMAIN cfg.exclude : cfg.exclude[i].lines # <<>> \/ cfg.exclude[i].kind = "explicit"}}
+
 ---------------------------------------------------------------------------
 \* The walker (DirTourist), listing order left open
 
@@ -116,6 +146,16 @@ Init ==
                     l \in Locs, k \in Kinds, c \in Contents, w \in {{}, {<<"test">>}, {<<"test", "sub">>}, {<<"a">>}}}
                 \cup {Cfg({[loc |-> l, kind |-> ".gitignore", lines |-> c]}, e, {}) :
                     l \in Locs, c \in Contents, e \in {Excl(<<>>), Excl(<<P("tests/")>>), Excl(<<P("sub/")>>)}}
+           [] Family = "origin" ->
+                \* every origin-level file against one walked file, and pairs of origin-level files
+                \* that contradict each other (the later one wins)
+                {Cfg({[loc |-> l, kind |-> ".gitignore", lines |-> c]}, <<OFile(k, e)>>, {}) :
+                    l \in Locs \cup MetaLocs, c \in {<<P("*.o")>>, <<P("!sub/")>>, <<P("sub/")>>},
+                    k \in {OriginKinds[i] : i \in DOMAIN OriginKinds}, e \in {<<>>, <<P("tests/")>>, <<P("sub/")>>, <<P("!sub/")>>}}
+                \cup {Cfg({[loc |-> <<"test", "sub">>, kind |-> ".ignore", lines |-> <<P("*.o")>>]},
+                          <<OFile(OriginKinds[i], e1), OFile(OriginKinds[j], e2)>>, {}) :
+                        i \in DOMAIN OriginKinds, j \in DOMAIN OriginKinds,
+                        e1 \in {<<P("sub/")>>, <<P("!sub/")>>}, e2 \in {<<P("sub/")>>, <<P("!sub/")>>}}
            [] Family = "two" ->
                 {Cfg({[loc |-> l1, kind |-> ".gitignore", lines |-> c1], [loc |-> l2, kind |-> ".ignore", lines |-> c2]},
                      NoExclude, {}) : l1 \in Locs, l2 \in Locs, c1 \in Contents, c2 \in Contents}
@@ -126,6 +166,8 @@ Init ==
                      RandomElement({NoExclude, Excl(<<P("tests/")>>), Excl(<<P("sub/")>>)}),
                      RandomElement({{}, {<<"test">>}, {<<"tests", "sub">>}, {<<"test">>, <<"a">>}})) : i \in 1..Sample}
     /\ \A f, g \in cfg.files : (f.loc = g.loc /\ f.kind = g.kind) => f = g      \* one file per name
+    /\ \A i, j \in DOMAIN cfg.exclude : i < j =>                                  \* in the order of OriginKinds
+          \E a, b \in DOMAIN OriginKinds : a < b /\ OriginKinds[a] = cfg.exclude[i].kind /\ OriginKinds[b] = cfg.exclude[j].kind
     /\ stack = <<<<>>>> /\ skip = {} /\ loaded = Initial(cfg) /\ found = {} /\ pc = "run"
 
 \* all orders in which the children still to be considered can be pushed
@@ -172,9 +214,10 @@ Emit ==
         PrintT(<<"CASE", ToJson([
             files   |-> {[loc |-> f.loc, kind |-> f.kind,
                           lines |-> [i \in DOMAIN f.lines |-> f.lines[i].text]] : f \in cfg.files},
-            exclude |-> [on |-> cfg.exclude.on, lines |-> [i \in DOMAIN cfg.exclude.lines |-> cfg.exclude.lines[i].text]],
+            exclude |-> [i \in DOMAIN cfg.exclude |->
+                            [kind |-> cfg.exclude[i].kind,
+                             lines |-> [j \in DOMAIN cfg.exclude[i].lines |-> cfg.exclude[i].lines[j].text]]],
             watches |-> cfg.watches,
             expect  |-> {[loc |-> f.loc, kind |-> f.kind, applies_to |-> AppliesTo(f.kind)] : f \in ExpectedFound(cfg)}
-                        \cup (IF cfg.exclude.on /\ cfg.exclude.lines # <<>>
-                              THEN {[loc |-> <<>>, kind |-> ".git/info/exclude", applies_to |-> "Git"]} ELSE {})])>>)
+                        \cup ExpectedOrigin(cfg)])>>)
 =============================================================================
